@@ -17,9 +17,9 @@ namespace DD.S
 
 /-- what C07 gives for a reordering that returned — or reported a schedule mismatch
 (DDProofs.DynSchedKeep) -/
-theorem minv_of_reorder {off : Bool} {ext : Nat → Nat} {m m' : Mgr} (hm : MInv off ext m)
+theorem minv_of_reorder {off : Bool} {ext : Nat → Nat} {m m' : Mgr} (hm : AutoMInv off ext m)
     (hR : ReorderInv ext m') (hrel : ReorderRel ext m m') :
-    MInv off ext m' ∧ HeldExt m.tbl m'.tbl ext := by
+    AutoMInv off ext m' ∧ HeldExt m.tbl m'.tbl ext := by
   refine ⟨⟨hR.inv, hR.order, hR.refExact, by rw [hrel.ctx]; exact hm.ctx,
     by rw [hrel.roots]; exact hm.roots, hm.mode.transfer hrel.lastLen (by rw [hrel.nvars]; exact Nat.le_refl _)⟩, ?_⟩
   intro u _ hpos
@@ -71,7 +71,7 @@ theorem RefExact.ext_unique {m : Mgr} {ext ext' : Nat → Nat} (h : RefExact m e
     have h2 := h'.cnt k c hr
     omega
 
-theorem MInv.dynInvS {ext : Nat → Nat} {m : Mgr} (h : MInv false ext m) : DynInvS ext m :=
+theorem AutoMInv.dynInvS {ext : Nat → Nat} {m : Mgr} (h : AutoMInv false ext m) : DynInvS ext m :=
   ⟨h.inv, h.order, h.counts, h.ctx, (fun r hr => by rw [h.roots] at hr; cases hr), h.mode.2 rfl⟩
 
 theorem heldX_of_handle (a : AMgr) {j : Nat} {u : Int} (hj : a.handles[j]? = some u) : HeldX (hext a) u :=
